@@ -35,11 +35,13 @@ prop("C02", [H("K8_storedmeta", quick={"wall": "140s", "shards": 8}), H("H02_sto
 prop("C03", [H("K6_boundaries"), H("H03_coder"), H("H03_dv", quick={"wall": "140s", "shards": 16, "param": "maxDocs=2,maxSeq=4,lite=1"}, thorough={"wall": "1500s", "shards": 16, "param": "maxDocs=3,maxSeq=4"})])
 prop("C04", [H("K7_footer"), H("H04_persist", quick={"wall": "140s", "shards": 16, "param": "lite=1,maxDocs=1"}, thorough={"wall": "1500s", "shards": 16, "param": "maxDocs=2"})])
 prop("C05", [H("K9_copystored"), H("H05_merge", common={"param": "maxDocs=1,tieReopen=1,maxOcc=1"}, quick={"wall": "140s", "shards": 12}, thorough={"wall": "1500s", "shards": 16, "param": "maxDocs=2,tieReopen=0,maxOcc=1,gen2=1"}),
+             # field names that sort before "_id"
+             H("H05_merge", common={"param": "maxDocs=1,tieReopen=1,maxOcc=1,upperNames=1,symTyp=0"}, quick={"wall": "140s", "shards": 4}, thorough={"skip": True}),
              # three inputs (thorough only)
              H("H05_merge", quick={"skip": True}, thorough={"wall": "1500s", "shards": 16, "param": "maxDocs=1,tieReopen=1,maxOcc=1,nInputs=3"}),
              # multi-valued stored fields (up to 3 occurrences with array positions), every field present and stored
              H("H05_merge", common={"param": "maxDocs=1,tieReopen=1,maxOcc=3,storeAll=1,always=1,fixAP=1,symTyp=0"}, quick={"wall": "140s", "shards": 4}, thorough={"wall": "1500s", "shards": 16, "param": "maxDocs=2,tieReopen=1,maxOcc=3,storeAll=1,always=1,fixAP=1,symTyp=0"})])
-prop("C06", KERNELS_CODEC[2:] + [H("H06_locids"), H("H06_enum", quick={"wall": "140s", "shards": 4}), H("H06_merge", quick={"wall": "140s", "shards": 16, "param": "maxDocs=1,tieReopen=1,lite=1"}, thorough={"wall": "1500s", "shards": 16, "param": "maxDocs=2,tieReopen=0,gen2=1"})])
+prop("C06", KERNELS_CODEC[2:] + [H("H06_large", quick={"wall": "140s", "shards": 8}, thorough={"wall": "1500s", "shards": 16, "param": "nLarge=2100"}), H("H06_locids"), H("H06_enum", quick={"wall": "140s", "shards": 4}), H("H06_merge", quick={"wall": "140s", "shards": 16, "param": "maxDocs=1,tieReopen=1,lite=1"}, thorough={"wall": "1500s", "shards": 16, "param": "maxDocs=2,tieReopen=0,gen2=1"})])
 PLAN["C06"]["harnesses"].append(H("H06_merge", quick={"skip": True}, thorough={"wall": "1500s", "shards": 16, "param": "maxDocs=1,tieReopen=1,lite=1,nInputs=3"}))
 prop("C07", [
     H("K2_uvarint_rt"), H("K2_uvarint_agree"),
@@ -54,7 +56,8 @@ prop("C07", [
 ])
 prop("C08", [H("H08_tmp"), H("H08_dict", quick={"wall": "175s", "shards": 16, "param": "provs=6,lite=1"}, thorough={"wall": "1500s", "shards": 16, "param": "provs=6"})])
 prop("C12", [H("K5_synonym"), H("H12_syn", quick={"wall": "140s", "shards": 16, "param": "maxSyn=2"}, thorough={"wall": "1500s", "shards": 16, "param": "maxSyn=3"})])
-prop("C13", [H("H13_synmerge", quick={"wall": "140s", "shards": 16, "param": "maxSyn=1,emptyTerm=1,drop1=0,reopen=0"}, thorough={"wall": "1500s", "shards": 16, "param": "maxSyn=2,emptyTerm=1,twoGen=1"})])
+prop("C13", [H("H13_synmerge", common={"param": "maxSyn=1,maxSyn0=2,emptyTerm=0,drop1=0,reopen=0"}, quick={"wall": "140s", "shards": 6}, thorough={"skip": True}),
+             H("H13_synmerge", quick={"wall": "140s", "shards": 16, "param": "maxSyn=1,emptyTerm=1,drop1=0,reopen=0"}, thorough={"wall": "1500s", "shards": 16, "param": "maxSyn=2,emptyTerm=1,twoGen=1"})])
 prop("C11", [H("H11_pool", quick={"wall": "100s", "shards": 8}), H("H11_effects", common={"race": True}, quick={"wall": "100s", "shards": 7}), H("H11_syn", common={"race": True})])
 prop("C17", [H("H17_writeTo"), H("H17_persist"),
              H("H17_merge", common={"param": "mergeBuf=16"}, quick={"wall": "100s"}),
